@@ -40,8 +40,8 @@ CHECKS = {
     "C08": dict(engine="mt", cat="exploration", tech="ThreadSanitizer-instrumented multi-threaded stress of init/compile/run/take/free with a yield hook injecting delays between critical sections; results compared with emulation",
                 text="many fresh processes per scenario (concurrent orc_init, concurrent compiles on different programs, shared compiled function, take_code/free against compiles, once-guarded first calls) under TSan with randomised delays at the yield hook; report blocks counted and deduplicated, results compared with emulation",
                 note="TSan sees only the interleavings the runs produced; distinct orderings observed are reported in the evidence"),
-    "C05": dict(engine="api", cat="exploration", tech="ASan/UBSan-instrumented execution of the compiler on generated valid, invalid and over-limit programs for all targets, with a result-classification monitor and a watchdog",
-                text="about 500k (quick) compiles of valid, mutated and over-limit programs for all eight registered targets and several flag sets under address/UB sanitizers; after every compile the harness checks the three-way result contract and emulates non-fatal programs (also mutated ones the compiler accepted); includes every opcode with x2/x4 prefix on operands of exactly the multiplied sizes (also beyond 8 bytes)",
+    "C05": dict(engine="api", cat="exploration", tech="ASan/UBSan-instrumented execution of the compiler on generated valid, invalid and over-limit programs for all targets, with a result-classification monitor (also over recompiles of one program object) and a watchdog",
+                text="one program object compiled for several targets in a row must satisfy the same contract after each compile; about 500k (quick) compiles of valid, mutated and over-limit programs for all eight registered targets and several flag sets under address/UB sanitizers; after every compile the harness checks the three-way result contract and emulates non-fatal programs (also mutated ones the compiler accepted); includes every opcode with x2/x4 prefix on operands of exactly the multiplied sizes (also beyond 8 bytes)",
                 note="sanitizers see only heap/stack/global red-zone and array-subscript violations; bounded time is restated as a 240 s per-case watchdog"),
     "C13": dict(engine="api", cat="exploration", tech="runtime round-trip monitoring (encode, decode, field comparison, re-encode, differential emulation)",
                 text="about 60k (quick) generated programs under each of two builds incl. boundary encodings and arbitrary declared alignments are serialised and reconstructed; all public fields, the second encoding and emulation results are compared; run with release and ASan builds",
@@ -52,16 +52,16 @@ CHECKS = {
     "C15": dict(engine="api", cat="exploration", tech="runtime equivalence monitoring: independent printer -> parser vs construction API (structure, bytecode)",
                 text="each generated program is rendered four ways (formatting noise, CRLF, literal spellings, constants as in-place literal operands, 8-byte literals with and without the L suffix) and every parse must be error free and equal to the API-built program; spacing noise includes blanks before the first and after the last token; a text naming an undeclared operand must report an error or keep every instruction",
                 note="printer covers integer/hex literal spellings; programs writing a destination twice are outside the text format"),
-    "C16": dict(engine="api", cat="exploration", tech="ASan + LeakSanitizer over random legal lifecycle sequences driven by an ownership model, with heap-growth measurement",
+    "C16": dict(engine="api", cat="exploration", tech="ASan + LeakSanitizer over random legal lifecycle sequences driven by an ownership model, with heap-growth measurement, a parser lifecycle step, and the same accounting under injected mkstemp/ftruncate/mmap failures (--wrap fault harness under ASan+LSan)",
                 text="16k (quick) random legal lifecycle sequences per build/environment (one program in six is 12-40 instructions long; executors kept across compiles and resets; programs with several errors at once) under ASan, repeated under LeakSanitizer in three environments, plus a K/4K iteration heap growth comparison",
                 note="legality model is the harness'; only leaks reachable at exit or growth visible in mallinfo2 are seen"),
-    "C17": dict(engine="api", cat="exploration", tech="runtime comparison of repeated compilations across histories, code placements, reset and processes/debug levels",
+    "C17": dict(engine="api", cat="exploration", tech="runtime comparison of repeated compilations across histories, code placements, reset, processes/debug levels and earlier compiles of the same program under other feature flags",
                 text="every program compiled twice with different code-memory history and placement, after reset, and in fresh processes under three debug levels (and twice under ORC_CODE=debug); bytes, listing and result compared for all eight targets; repeat runs of the same code on the same inputs through an executor before and after it was used for a larger n and with every caller-saved vector register filled with different patterns at entry (incl. four-accumulator programs)",
                 note="names fixed by the harness; ORC_CODE=debug changes default flags by design and is compared only with itself"),
     "C20": dict(engine="api", cat="exploration", tech="runtime monitoring of extension registration scenarios (call counters, rule identity log, before/after snapshots) in fresh processes",
                 text="32 (quick) / 96 (thorough) registration scenarios x 2 builds, each in its own process: extension opcode sets (incl. set names extending 'sys' or an earlier set) emulated and natively compiled against their own reference, rule sets with satisfied/unsatisfied/mixed required flags, rule precedence logged, opcodes with three sources or two destinations, built-in programs compared before/after",
                 note="rules registered for sse only"),
-    "C09": dict(engine="codemem", cat="exploration", tech="runtime invariant monitoring of the code-memory allocator through a walk hook under its own lock, against a shadow model; exhaustive alloc/free sequences plus random real histories",
+    "C09": dict(engine="codemem", cat="exploration", tech="runtime invariant monitoring of the code-memory allocator through a walk hook under its own lock, against a shadow model; exhaustive alloc/free sequences plus random real histories, plus a /proc/self/maps monitor that every function handed out under injected mkstemp/ftruncate/mmap failures lies in executable memory",
                 text="all alloc/free sequences to depth 6 (thorough: 7) over six sizes, and long random compile/take_code/free/recompile-in-place/re-execute histories, with structural, overlap, reuse and byte/result-stability invariants checked after every step",
                 note="exhaustive only for the stated alphabet and depth; needs the ORC_VERIF_HOOKS walk hook"),
     "C19": dict(engine="cpu", cat="exploration", tech="runtime monitoring of target selection in child processes whose cpuid/XCR0 reads are masked by a hook, plus ISA oracle and execution of the default compile path",
@@ -81,7 +81,7 @@ ENGINES = [
     {"name": "codemem", "path": "harness/codemem.c", "serves_properties": ["C09"], "kind_free_text": "allocator history enumeration and random compile/free histories with a hook-based invariant walk"},
     {"name": "orccgen+orccdrv", "path": "harness/orccgen.c", "serves_properties": ["C04", "C07"], "kind_free_text": "generator of .orc batches, prototype-calling drivers and reference checksums; vlib/orccdrv.py runs the real orcc, gcc and the resulting programs in every mode"},
     {"name": "memfn", "path": "harness/memfn.c", "serves_properties": ["C07"], "kind_free_text": "orc_memcpy/orc_memset vs memcpy/memset over lengths and alignments with canaries"},
-    {"name": "fault", "path": "harness/fault.c", "serves_properties": ["C06"], "kind_free_text": "--wrap based failure injection for mkstemp/ftruncate/mmap with per-process failure plans"},
+    {"name": "fault", "path": "harness/fault.c", "serves_properties": ["C06", "C09", "C16"], "kind_free_text": "--wrap based failure injection for mkstemp/ftruncate/mmap with per-process failure plans"},
     {"name": "mt", "path": "harness/mt.c", "serves_properties": ["C08"], "kind_free_text": "multi-threaded scenarios built with -fsanitize=thread, delays injected through orc_verif_yield_hook"},
     {"name": "cpu", "path": "harness/cpu.c", "serves_properties": ["C19"], "kind_free_text": "per-process probe of target selection under masked cpuid"},
     {"name": "asmdump+asmcmp", "path": "harness/asmdump.c", "serves_properties": ["C11", "C12"],
